@@ -575,17 +575,27 @@ pub fn run(ctx: Ctx) -> ! {
         done.store(true, Ordering::SeqCst);
     });
     let mut agg = Arc::try_unwrap(agg).ok().unwrap().into_inner().unwrap();
-    // panic findings arrive keyed by site + line; regroup them by defect
-    for which in [0, 1] {
-        let src = std::mem::take(if which == 0 { &mut agg.viol } else { &mut agg.diag });
-        let mut dst = BTreeMap::new();
-        for (k, g) in src {
-            Agg::add(&mut dst, defect_fingerprint(&k), g.count, g.first, g.entry, g.message, g.location);
+    // panic findings arrive keyed by "<entry>|<site> @<file:line>"; regroup them
+    // by defect (site + enclosing source item), keeping one witness per entry point
+    let mut defects: BTreeMap<String, BTreeMap<usize, GFinding>> = BTreeMap::new();
+    for (k, g) in std::mem::take(&mut agg.viol) {
+        let rest = match k.split_once('|') {
+            Some((e, rest)) if e.parse::<usize>().is_ok() => rest.to_string(),
+            _ => k.clone(),
+        };
+        let fp = defect_fingerprint(&rest);
+        let per = defects.entry(fp).or_default();
+        let mut tmp: BTreeMap<String, GFinding> = BTreeMap::new();
+        if let Some(old) = per.remove(&g.entry) {
+            tmp.insert(String::new(), old);
         }
-        if which == 0 {
-            agg.viol = dst;
-        } else {
-            agg.diag = dst;
+        Agg::add(&mut tmp, String::new(), g.count, g.first, g.entry, g.message, g.location);
+        per.insert(g.entry, tmp.remove("").unwrap());
+    }
+    {
+        let src = std::mem::take(&mut agg.diag);
+        for (k, g) in src {
+            Agg::add(&mut agg.diag, defect_fingerprint(&k), g.count, g.first, g.entry, g.message, g.location);
         }
     }
     let sweep_s = t0.elapsed().as_secs_f64();
@@ -599,7 +609,7 @@ pub fn run(ctx: Ctx) -> ! {
         for (u, (ev, us)) in pu.iter().take(40) {
             eprintln!("  unit {} len={}: evaluations={ev} cpu={:.1}s ({:.1} us/eval)", world.describe_unit(&units[**u]), unit_len(&units[**u]), *us as f64 / 1e6, *us as f64 / (*ev).max(1) as f64);
         }
-        for (k, v) in &agg.viol {
+        for (k, v) in &defects {
             eprintln!("VIOL {k}: {v:?}");
         }
         for (k, v) in &agg.diag {
@@ -635,10 +645,10 @@ pub fn run(ctx: Ctx) -> ! {
         mc_core::report::machinery_failure(&format!("vacuous sweep: {}", problems.join("; ")));
     }
 
-    // ---- witnesses: reconstruct, shrink, report
+    // ---- witnesses: reconstruct, shrink (one per defect and entry point), report
     let shrink_budget: u32 = if ctx.thorough { 30_000 } else { 6_000 };
-    let viol_list: Vec<(String, GFinding)> = agg.viol.iter().map(|(k, v)| (k.clone(), v.clone())).collect();
-    let shrunk: Vec<(String, GFinding, Value)> = viol_list
+    let viol_list: Vec<(String, GFinding)> = defects.iter().flat_map(|(k, per)| per.values().map(move |g| (k.clone(), g.clone()))).collect();
+    let shrunk: Vec<(String, GFinding, Value, usize)> = viol_list
         .par_iter()
         .enumerate()
         .map(|(idx, (fp, g))| {
@@ -646,15 +656,18 @@ pub fn run(ctx: Ctx) -> ! {
             let m = if g.first.1 == u64::MAX { None } else { world.materialise(&unit, g.first.1) };
             let (input, desc) = match &m {
                 Some(m) => (m.bytes.clone(), m.desc.clone()),
-                None => (match unit {
-                    Unit::Single(s) | Unit::Splice(s, _) => world.seeds[s].bytes.clone(),
-                    Unit::Short(_) => vec![],
-                }, "unfaulted".to_string()),
+                None => (
+                    match unit {
+                        Unit::Single(s) | Unit::Splice(s, _) => world.seeds[s].bytes.clone(),
+                        Unit::Short(_) => vec![],
+                    },
+                    "unfaulted".to_string(),
+                ),
             };
             let mut budget = shrink_budget;
             let minimal = if fp.starts_with("abort:") {
                 let sig = fp.split(':').nth(1).unwrap_or("").to_string();
-                let mut budget = 300u32;
+                budget = 300;
                 let mut pr = Prober { sp: &spawner, journal: scratch.join(format!("journal-shrink-{idx}")), proc: None };
                 let out = if sig == "timeout" { input.clone() } else { shrink(input.clone(), &mut |b| matches!(pr.probe(g.entry, b), Err(s) if s == sig), &mut budget) };
                 pr.close();
@@ -673,16 +686,26 @@ pub fn run(ctx: Ctx) -> ! {
                 "witnesses": g.count,
                 "shrink_budget_left": budget,
             });
-            (fp.clone(), g.clone(), case)
+            (fp.clone(), g.clone(), case, minimal.len())
         })
         .collect();
-    for (fp, g, case) in &shrunk {
+    let mut findings_json = vec![];
+    for fp in defects.keys() {
+        let mut mine: Vec<&(String, GFinding, Value, usize)> = shrunk.iter().filter(|x| &x.0 == fp).collect();
+        // the smallest shrunk input is the reported case; ties by entry id
+        mine.sort_by_key(|x| (x.3, x.1.entry));
+        let (_, g, case, _) = mine[0];
+        let total: u64 = mine.iter().map(|x| x.1.count).sum();
+        let mut case = case.clone();
+        case["witnesses"] = json!(total);
+        case["also_reached_via"] = json!(mine[1..].iter().map(|x| json!({"entry_point": world.cat[x.1.entry].name, "input_hex": x.2["input_hex"], "witnesses": x.1.count})).collect::<Vec<_>>());
         let what = if fp.starts_with("abort:") {
-            format!("{} on a {}-byte input: {} ({} witnesses)", world.cat[g.entry].name, case["input_len"], g.message, g.count)
+            format!("{} on a {}-byte input: {} ({} witnesses)", world.cat[g.entry].name, case["input_len"], g.message, total)
         } else {
-            format!("{} panicked on a {}-byte input: {} at {} ({} witnesses)", world.cat[g.entry].name, case["input_len"], g.message, g.location, g.count)
+            format!("{} panicked on a {}-byte input: {} at {} ({} witnesses over {} entry points)", world.cat[g.entry].name, case["input_len"], g.message, g.location, total, mine.len())
         };
-        ctx.violation(fp.clone(), what, case.clone());
+        findings_json.push(json!({"fingerprint": fp, "what": what, "minimal_input_hex": case["input_hex"], "entry_point": case["entry_point"], "location": g.location, "witnesses": total}));
+        ctx.violation(fp.clone(), what, case);
     }
     let diagnostics: Vec<Value> = agg
         .diag
@@ -760,7 +783,7 @@ pub fn run(ctx: Ctx) -> ! {
         "batches" => agg.batches,
         "sweep_wall_s" => sweep_s,
         "accessor_diagnostics" => diagnostics,
-        "violating_panic_sites" => agg.viol.len(),
+        "findings" => findings_json,
     };
     ctx.finish(
         Level::FaultEnumeration,
